@@ -61,6 +61,7 @@ func runRelay(c *harness.Ctx) {
 		p.MaxRead = []int{0, 0, 1, 100, 4096}[t.Draw("maxread", 5)]
 		p.SndBuf = []int{256 << 10, 256 << 10, 4096, 100}[t.Draw("sndbuf", 4)]
 		p.Latency = []time.Duration{0, 0, time.Millisecond, 20 * time.Millisecond}[t.Draw("lat", 4)]
+		p.ErrWithData = t.Draw("errwithdata", 2) == 1
 	}
 	mkFar := func(name string, conn *simnet.Conn, dout, din int) *farEnd {
 		f := &farEnd{name: name, conn: conn, dirOut: dout, dirIn: din}
